@@ -47,12 +47,30 @@ type Ob struct {
 	known        bool
 }
 
+// Unrec records that the rule did not find the construct it knows (a count
+// of sites that differs from the reviewed tree, a call or store that is not
+// where the rule looks for it).  Like Shape it does not fail the obligation.
+func (o *Ob) Unrec(format string, args ...any) {
+	o.Evals++
+	if Strict() {
+		o.Fail(format, args...)
+		return
+	}
+	if len(o.Unrecognised) < 20 {
+		o.Unrecognised = append(o.Unrecognised, fmt.Sprintf(format, args...))
+	}
+}
+
 // Shape notes that a construct recognised only by its written form is (cond
 // true) or is not (cond false) present in that form.  Unlike Require, a
 // missing form does not fail the obligation: it is reported as
 // UNRECOGNISED and recorded in the evidence.
 func (o *Ob) Shape(cond bool, format string, args ...any) bool {
 	o.Evals++
+	if !cond && Strict() {
+		o.Fail(format, args...)
+		return cond
+	}
 	if !cond && len(o.Unrecognised) < 20 {
 		o.Unrecognised = append(o.Unrecognised, fmt.Sprintf(format, args...))
 	}
